@@ -166,8 +166,9 @@ class String:
             except KeyError:
                 raise ParseError('Unexpected tag', tag)
         else:
-            # Var command
-            args = args and (f"{name} {args}") or name
+            # Var command, either %(name args)s or %(var name args)s
+            if not (name == 'var' and args):
+                args = args and (f"{name} {args}") or name
             return tag, args, Var, None
 
     @security.private
